@@ -514,6 +514,8 @@ Definition setfrac (a b : Z) : Q := Qred (Qmake a (Z.to_pos b)).
 
 Definition pow (b e : num) : result :=
   if is_exact b && is_exact_int e then
+    (* base == 0 && exp.Sign() < 0: 0 has no reciprocal *)
+    if is_int0 b && (to_big e <? 0) then RErr EDivZero else
     match e with
     | NInt 0 => RVals [NInt 1]
     | NInt 1 => RVals [b]
